@@ -60,6 +60,9 @@ impl Out {
 	pub fn finish(mut self) {
 		self.w.flush().unwrap();
 	}
+	pub fn flush(&mut self) {
+		self.w.flush().unwrap();
+	}
 }
 
 /// Parse `--key value` style arguments.
